@@ -41,6 +41,11 @@ def build(s):
             ns = {"_torch": torch}
             exec(src, ns)
             return S.RandomUniformSampler(d, n_points=n, filter_fn=ns["flt"])
+        if kind == "narrow":          # a filter that accepts 2 % of the interval: ~50 candidates per accepted point
+            src = "def flt(%s):\n    return (%s - _torch.floor(%s / 10.0) * 10.0) >= 0.98\n" % (v, v, v)
+            ns = {"_torch": torch}
+            exec(src, ns)
+            return S.RandomUniformSampler(d, n_points=n, filter_fn=ns["flt"])
         raise ValueError(kind)
     if k == "prod":
         return build(s["a"]) * build(s["b"])
@@ -73,7 +78,7 @@ def decode(pts, s, pvar, vids):
         row = {}
         for c, t in co.items():
             x = float(t[j, 0])
-            cell = {"vid": 0, "dep": -1, "did": -1, "fr12": -1, "half": 0}
+            cell = {"vid": 0, "dep": -1, "did": -1, "fr12": -1, "half": 0, "top": 0}
             if c in ("t", "p"):
                 cell["vid"] = int(round(x)) if abs(x - round(x)) < 1e-6 else 900000 + vids.setdefault((c, x), len(vids))
                 if c == "t":
@@ -88,9 +93,19 @@ def decode(pts, s, pvar, vids):
                 f12 = frac * 12
                 cell["fr12"] = int(round(f12)) if abs(f12 - round(f12)) < 1e-4 else -1
                 cell["half"] = 1 if frac >= 0.5 - 1e-6 else 0
+                cell["top"] = 1 if frac >= 0.98 - 1e-6 else 0
             row[c] = cell
         rows.append(row)
     return rows
+
+
+def _watched(fn):
+    """watched(), with the sampler's documented safeguard named as an event of its own: RandomUniformSampler gives up with a
+    RuntimeError when 20 rounds of candidates did not contain a single point that passes the filter"""
+    r = watched(fn)
+    if r[0] == "exc" and r[1] == "RuntimeError" and "could not find a single" in (r[2] if len(r) > 2 else ""):
+        return ("exc", "FilterGaveUp", r[2])
+    return r
 
 
 def run_one(s):
@@ -104,7 +119,7 @@ def run_one(s):
     tr["build_exc"] = ""
     pvals = [2, 1, 3][:k]
     P = Points(torch.tensor([[float(v)] for v in pvals]), R1(pvar)) if k else Points.empty()
-    tr["P"] = [{pvar: {"vid": v, "dep": -1, "did": v if pvar == "t" else -1, "fr12": -1, "half": 0}} for v in pvals]
+    tr["P"] = [{pvar: {"vid": v, "dep": -1, "did": v if pvar == "t" else -1, "fr12": -1, "half": 0, "top": 0}} for v in pvals]
     r = watched(lambda: len(smp))
     if r[0] == "ok":
         tr["len_before"] = int(r[1])
@@ -112,7 +127,7 @@ def run_one(s):
     tr["free"] = None
     if not (pvar == "t" and k):
         smp_free = build(smp_ast)            # a separate instance (a static sampler would cache this table)
-        r = watched(lambda: smp_free.sample_points())
+        r = _watched(lambda: smp_free.sample_points())
         if r[0] == "ok":
             tr["free"] = {"rows": decode(r[1], smp_ast, pvar, vids), "exc": ""}
             r2 = watched(lambda: len(smp_free))
@@ -122,14 +137,22 @@ def run_one(s):
     # the second call gets the same number of parameter rows with OTHER values
     pvals2 = [1, 3, 2][:k]
     P2 = Points(torch.tensor([[float(v)] for v in pvals2]), R1(pvar)) if k else Points.empty()
-    tr["P2"] = [{pvar: {"vid": v, "dep": -1, "did": v if pvar == "t" else -1, "fr12": -1, "half": 0}} for v in pvals2]
+    tr["P2"] = [{pvar: {"vid": v, "dep": -1, "did": v if pvar == "t" else -1, "fr12": -1, "half": 0, "top": 0}} for v in pvals2]
     for rep in range(2):
         PP = P if rep == 0 else P2
-        r = watched(lambda: smp.sample_points(PP) if k else smp.sample_points())
+        r = _watched(lambda: smp.sample_points(PP) if k else smp.sample_points())
         if r[0] == "ok":
             tr["calls"].append({"rows": decode(r[1], smp_ast, pvar, vids), "exc": ""})
         else:
             tr["calls"].append({"rows": [], "exc": r[1] if len(r) > 1 else "hang", "msg": r[2] if len(r) > 2 else ""})
+    # history on the SAME object: after the calls with k parameter rows a parameter-free call; len() is the number of rows of that call
+    tr["hist_rows"], tr["hist_len"] = -1, -1
+    if k and pvar != "t":
+        r = watched(lambda: smp.sample_points())
+        if r[0] == "ok":
+            tr["hist_rows"] = len(r[1])
+            r2 = watched(lambda: len(smp))
+            tr["hist_len"] = int(r2[1]) if r2[0] == "ok" else -2
     return tr
 
 
